@@ -26,7 +26,8 @@ class VLoop(asyncio.SelectorEventLoop):
 class RTSim(mosaik_api_v3.Simulator):
     def __init__(self):
         super().__init__({'api_version': '3.0', 'type': 'time-based', 'models': {'M': {'public': True, 'params': [], 'attrs': ['i', 'po', 'ti']}}})
-    def init(self, sid, time_resolution=1.0, step_size=1, duration=0.0, typ='time-based', events=None, self_steps=True, flag=True, external=None):
+    def init(self, sid, time_resolution=1.0, step_size=1, duration=0.0, typ='time-based', events=None, self_steps=True, flag=True, external=None, durations=None):
+        self.durs = durations or {}        # per step time: how long that step takes (overrides duration)
         self.sid = sid; self.ss = step_size; self.dur = duration; self.events = events or {}; self.self_steps = self_steps
         self.external = external or []        # [(seconds after setup_done, event time)]: set_event calls made from OUTSIDE a step (an external event source)
         self.meta['type'] = typ
@@ -50,7 +51,8 @@ class RTSim(mosaik_api_v3.Simulator):
                 LOG.append(('SETEVENT', self.sid, t, ev, 'ok'))
             except Exception as e:
                 LOG.append(('SETEVENT', self.sid, t, ev, type(e).__name__)); raise
-        if self.dur: yield asyncio.sleep(self.dur)
+        d = self.durs.get(str(t), self.dur)
+        if d: yield asyncio.sleep(d)
         LOG.append(('END', self.sid, t, asyncio.get_event_loop().time()))
         return (t + self.ss) if self.self_steps else None
     def get_data(self, outputs): return {'e': {'po': 0}}
@@ -63,7 +65,7 @@ def trial(cfg):
     w = mosaik.World({'S': {'python': 'harness.props.c17:RTSim'}}, skip_greetings=True, asyncio_loop=loop, time_resolution=cfg['res'])
     ents = []
     for i, s in enumerate(cfg['sims']):
-        kw = dict(step_size=s.get('step_size', 1), duration=s.get('duration', 0.0), typ=s.get('typ', 'time-based'), events=s.get('events'), self_steps=s.get('self_steps', True), flag=s.get('flag', True), external=s.get('external'))
+        kw = dict(step_size=s.get('step_size', 1), duration=s.get('duration', 0.0), typ=s.get('typ', 'time-based'), events=s.get('events'), self_steps=s.get('self_steps', True), flag=s.get('flag', True), external=s.get('external'), durations=s.get('durations'))
         if s.get('group'):
             with w.group(): ents.append(w.start('S', sim_id=f'S{i}', **kw).M())
         else:
